@@ -61,6 +61,12 @@ theorem sockRead_spec (ps : List (List UInt8)) (h : Live ps) (n : Nat) :
   · subst h0; simp [h]
   · simp only [h0, if_false]; exact recvLoop_spec ps h n (by omega)
 
+theorem sockReadBytes_eq (n : Nat) (ps : List (List UInt8)) : sockReadBytes n ps = sockRead n ps := by
+  unfold sockReadBytes sockReadResult sockRead
+  by_cases h0 : n = 0
+  · simp [h0]
+  · simp [h0, sockReadRet]
+
 theorem getGenericFrag_spec (swap : Bool) (w : Nat) (ps : List (List UInt8)) (h : Live ps) :
     (getGenericFrag swap w ps).1 = (getGeneric swap w ps.flatten).1 ∧
     (getGenericFrag swap w ps).2.flatten = (getGeneric swap w ps.flatten).2 ∧ Live (getGenericFrag swap w ps).2 := by
@@ -107,7 +113,7 @@ theorem readOpFrag_spec (e : Endian) (ps : List (List UInt8)) (h : Live ps) (op 
     simp only [readOpFrag, readOp, a, b]; exact ⟨trivial, trivial, trivial, c⟩
   | bytes n =>
     obtain ⟨a, b, c⟩ := sockRead_spec ps h (rawReadCount .sock n)
-    simp only [readOpFrag, readOp, a, b]; exact ⟨trivial, by simp [rawReadCount, rawReadAdv], trivial, c⟩
+    simp only [readOpFrag, readOp, sockReadBytes_eq, a, b]; exact ⟨trivial, by simp [rawReadCount, rawReadAdv], trivial, c⟩
   | skip n =>
     obtain ⟨a, b, c⟩ := sockRead_spec ps h (skipAdv .sock n)
     simp only [readOpFrag, readOp, b]; exact ⟨trivial, trivial, trivial, c⟩
